@@ -116,9 +116,9 @@ CHECKS = {
              "names, ticks and restarts change no content) with a ghost `unsaved` set that makes TLC generate the paths on which a leaked "
              "or re-opened store would lose data; every transition of the bounded graph (3 name variants incl. case, 2 values, 8-9 steps) "
              "is replayed through engine.Session with timers replaced by ticks delivered to every store still open; after each step the "
-             "selected database is read back, at the end every database is selected in turn, compared, and must accept a new row with a fresh id. Databases declare equally named tables with different column lists, so that schema information of one database can never serve another. Every fourth path is replayed again in a database that holds eight more tables (Session!OtherTable), and every path with a tick followed by CREATE DATABASE once more with the two happening at the same time (the database created from inside the I/O hook of the tick's first page write: stores have a lock each). One scenario runs with the real flush timers while the process is held up for 260 ms inside USE / CREATE DATABASE (hook H2). The promises of Session.tla are also proved without bounds (any number of databases, rows, steps) with TLAPS (SessionProof.tla, re-checked on every run).",
+             "selected database is read back, at the end every database is selected in turn, compared, and must accept a new row with a fresh id. Databases declare equally named tables with different column lists, so that schema information of one database can never serve another. Every fourth path is replayed again in a database that holds eight more tables (Session!OtherTable), and every path with a tick followed by CREATE DATABASE once more with the two happening at the same time (the database created from inside the I/O hook of the tick's first page write: stores have a lock each). One scenario runs with the real flush timers while the process is held up for 260 ms inside USE / CREATE DATABASE (hook H2); one restarts on every prefix of the writes a real CREATE DATABASE issues on its data file (the process died inside the statement). The promises of Session.tla are also proved without bounds (any number of databases, rows, steps) with TLAPS (SessionProof.tla, re-checked on every run).",
         design_ref="DESIGN.md 6 (C17)",
-        note="Found and repaired with it: use-abandons-store, failed-use-nil-service, flusher-before-header. Trusted: TLC, hooks H1/H2 (timer off, store registry).",
+        note="Found and repaired with it: use-abandons-store, failed-use-nil-service, flusher-before-header, half-created-db-blocks-startup, half-created-db-panics. Trusted: TLC, hooks H1/H2 (timer off, store registry).",
         technique="TLA+ spec (Session.tla) model-checked with TLC and proved with TLAPS; per-transition behaviour replay through engine.Session",
     ),
     "C19": dict(
